@@ -16,11 +16,14 @@ CLAIM = {
           'full frame set; via the grouping/sorted-order lemma for _retFrameSetMap, induction over the map entries and '
           'the (chFrom, chTo) run labelling of every read event against setFrameBytes); reads_inside_selected_records (any channels, direct or indirect X: every seek/read of a '
           'successful load lies inside a record that holds a requested frame); setFrameSet_history_independent + '
-          'setFrameSet_after_any_load; implied_x_events_partial + extrapolate_rule_first/later (the EXTRAPOLATE events of '
-          'a record for every channel list, and the rule each one applies: this is the F7 wrong-value rule); '
-          'kernel-evaluated witnesses incl. implied_x_f7_witness (negation of the implied-X clause on the current code). '
-          'Not proved in general: the composition of the implied-X rules over renumbering and all records for indirect X '
-          '(implied_x_partial / implied_x_wrong_iff; the per-record events and the per-event rule are proved); this is covered by the '
+          'setFrameSet_after_any_load; implied X for EVERY indirect-X log pass, slice and non-empty channel selection: '
+          'implied_x_rule (exact closed form of the implied X vector: record X word for offset 0, X word + a*spacing in '
+          'the first loaded record, previous loaded X + a*spacing in later records = the F7 rule, then step*spacing per '
+          'frame), implied_x_partial / implied_x_step1 (X = x0 + frame*spacing whenever every later record is entered at '
+          'offset 0, in particular for step 1), implied_x_wrong_iff (with non-zero spacing the X is wrong EXACTLY for the '
+          'frames of later records entered at an offset > 0: the F7 class predicate is a theorem); '
+          'kernel-evaluated witnesses incl. implied_x_f7_witness. All clauses of the property are now covered by general '
+          'theorems about the model (integer X arithmetic); the model is tied to the code by the '
           'correspondence of the model with the code on generated LIS files (index entries, loaded words, implied X '
           'vector, file operation trace, genEvents tuples) and by the property oracle evaluated on the implementation '
           'alone against the generator\'s ground truth.'),
